@@ -753,12 +753,14 @@ def gen_sol(rng, tier='quick'):
         evs = sorted(rng.sample(range(T), n_ev))
         if hold:
             evs[0] = 0
+        elif rng.random() < 0.08:
+            evs = []           # a gain product without any solution inside the data: only the placeholder
         nch = 1 if (t not in GAIN_TYPES and t != 'B') else (len(cal) if (t == 'B' or rng.random() < 0.3) else 1)
         per_input = []
         for _ in range(ninp):
             e0 = rng.randint(-2, 2)
             style = rng.choice(['const', 'const', 'dead', 'varying', 'zero_once', 'zero_once', 'all_invalid', 'holes'])
-            zero_at = rng.choice(evs)
+            zero_at = rng.choice(evs) if evs else None
             dead_ch = rng.randrange(nch) if rng.random() < 0.3 else None
             vals = []
             for d in evs:
@@ -820,7 +822,7 @@ def _sol_fill(cfg, got):
                         col = np.array([leaf_c(x) for x in v], np.complex64)
                         arr = col.reshape(len(v), 1, 1) if (t == 'B' or len(v) > 1) else col.reshape(1, 1)
                     values.append(ComparableArrayWrapper(arr))
-                if events[0] != 0:
+                if not events or events[0] != 0:
                     # what the sensor cache serves before the first gain solution
                     values.insert(0, applycal.INVALID_GAIN)
                     events.insert(0, 0)
@@ -886,8 +888,7 @@ def run_sol(ctx, cfg):
                               'nan' if x is None else 'number')
     base = dict(cfg, route='direct', prods=[])
     scfg, ms = _spec_on(ctx, base, want, wmask, got, names, cal_freqs)
-    compare(ctx, cfg_with(cfg, scfg), impl, ms, 'sol', sides=('spec',), spec_name='spec_from_solutions',
-            tag=';types=' + '+'.join(sorted(p['type'] for p in cfg['products'])))
+    compare(ctx, cfg_with(cfg, scfg), impl, ms, 'sol', sides=('spec',), spec_name='spec_from_solutions', tag=';sol')
     ts, cs, bs = cfg['subset']
     ix = np.ix_(ts, cs, bs)
     for nm in ('vis', 'weights', 'flags'):
@@ -1007,6 +1008,8 @@ def gen_v4(rng, tier='quick', force=None):
         g_with_chans = rng.random() < 0.4
         n_ev = rng.randint(2 if (t == 'B' and n_parts > 1) else 1, min(4 if t == 'B' else 3, T + 1))
         evs = sorted(rng.sample(range(-1, T), n_ev))
+        if t in GAIN_TYPES and rng.random() < 0.08:
+            evs = [T]          # the only solution comes after the last dump: the data set sees no solution at all
         # a dead input (every solution exactly zero), a dead cal channel of one input, a zero at ONE solution time
         inputs_pa = [(p, a) for p in range(2) for a in range(n_ant)]
         dead_input = rng.choice(inputs_pa) if rng.random() < p_zero * 0.6 else None
@@ -1575,7 +1578,7 @@ def run_v4(ctx, vcfg):
                              % (ptype, inputs[bad[0]], bad[1]))
         scfg, ms = _spec_on(ctx, cfg, want, wmask, read, want_names, cal_freqs)
         compare(ctx, cfg_with(vcfg, scfg), impl, _restrict(ms, ix, [(s1, s2)]), 'v4', sides=('spec',),
-                spec_name='spec_from_solutions', tag=shape_tag + ';' + req_tag)
+                spec_name='spec_from_solutions', tag=shape_tag + (';' + req_tag if got_names != want_names else ''))
         # (c) the result does not depend on which subset is LOADED: the same store opened with preselect
         if pre:
             run_preselected(ctx, vcfg, x, inputs, bls, cal_freqs, freqs, (vis0, w0, f0), full, (want, wmask),
